@@ -1,5 +1,5 @@
 # replay of a bounded stand-in violation (C15): re-run native/c15_hbar.py
 import sys
-print('gaussian X-Z-P: fock_prob at hbar=2.0 is [0.16332, 0.825], at hbar=0.5 it is [0.14871, 0.21532]')
+print('gaussian state (1 mode(s)) created at hbar=0.7: mean_photon answers differently after the global sf.hbar was set to another value ([(0.08631+0j), (0.14942+0j)] -> [(-0.37563+0j), (0.14942+0j)])')
 print('REPLAY-VIOLATION')
 sys.exit(1)
